@@ -21,6 +21,8 @@ struct WriteCase {
     packets: Vec<Packet>,
     write_plan: Vec<WAct>,
     default_write: usize,
+    /// tokio only: 0 = plain transport; k >= 1 = buffering transport whose flush is Pending k-1 times before it completes
+    flush: usize,
     label: String,
 }
 
@@ -28,6 +30,12 @@ fn run_case(which: Impl, case: &WriteCase, p: &mut Part) {
     p.evaluations += 1;
     let h = Handle::new(vec![], vec![], case.write_plan.clone());
     h.with(|s| s.default_write = case.default_write);
+    if case.flush > 0 && which == Impl::Tokio {
+        h.with(|s| {
+            s.buffered = true;
+            s.flush_plan = (0..4096).map(|i| i % case.flush != case.flush - 1).collect();
+        });
+    }
     let mut conn = Conn::new(which, &h, case.compressed, false);
     let mut expected: Vec<u8> = vec![];
     let mut failed = false;
@@ -129,7 +137,7 @@ pub fn run(ctx: &mut Ctx) -> (&'static str, String, bool) {
                             if which == Impl::Blocking && pend > 0 {
                                 continue;
                             }
-                            let case = WriteCase { compressed, packets: vec![pk.clone(), pk.clone()], write_plan: plan.clone(), default_write: 1, label: format!("exhaustive-{kind}-mask{mask}-pend{pend}") };
+                            let case = WriteCase { compressed, packets: vec![pk.clone(), pk.clone()], write_plan: plan.clone(), default_write: 1, flush: 0, label: format!("exhaustive-{kind}-mask{mask}-pend{pend}") };
                             run_case(which, &case, &mut p);
                             p.distinct(&(which.name(), compressed, kind, mask, pend));
                         }
@@ -196,7 +204,7 @@ pub fn run(ctx: &mut Ctx) -> (&'static str, String, bool) {
                     // an async transport has no EINTR: keep only Pending / Accept for tokio
                     plan2.retain(|a| !matches!(a, WAct::Error(_)));
                 }
-                let case = WriteCase { compressed, packets: packets.clone(), write_plan: plan2, default_write, label: format!("random-{i}-style{style}") };
+                let case = WriteCase { compressed, packets: packets.clone(), write_plan: plan2, default_write, flush: [0, 0, 1, 2, 3][(i % 5) as usize], label: format!("random-{i}-style{style}") };
                 run_case(which, &case, &mut p);
             }
             p.distinct(&(i, total));
@@ -205,7 +213,7 @@ pub fn run(ctx: &mut Ctx) -> (&'static str, String, bool) {
                 let cut = 1 + r.usize_below(total - 1);
                 let plan = vec![WAct::Accept(cut), WAct::Error(ErrorKind::BrokenPipe)];
                 for which in IMPLS {
-                    let case = WriteCase { compressed, packets: packets.clone(), write_plan: plan.clone(), default_write: 0, label: format!("hard-error-{i}-after{cut}") };
+                    let case = WriteCase { compressed, packets: packets.clone(), write_plan: plan.clone(), default_write: 0, flush: 0, label: format!("hard-error-{i}-after{cut}") };
                     run_case(which, &case, &mut p);
                 }
             }
